@@ -70,6 +70,8 @@ func init() {
 		l.p("def deletePipeSaves : Bool := %s", leanBool(callsSave("DeletePipe")))
 		l.p("/-- `Shutdown` persists the registry -/")
 		l.p("def shutdownSaves : Bool := %s", leanBool(callsSave("Shutdown")))
+		l.p("/-- the whole of `savePipes` (snapshot of the registry and the write of pipes.dat) runs under one mutex of its own -/")
+		l.p("def savePipesSerialized : Bool := %s", leanBool(c19SaveSerialized(f)))
 		l.p("/-- `CreatePipe` looks the name up twice (before and after building the pipe) and stores only under the second look-up's negative answer -/")
 		l.p("def createPipeRechecks : Bool := %s", leanBool(lookups >= 2 && guardedStore))
 		l.p("/-- the `for … range s.ppipes` loop of `GetPipes` contains `cnt++` -/")
@@ -275,4 +277,120 @@ func c19CreateShape(cp *ast.FuncDecl) (int, bool) {
 	}
 	walk(cp.Body)
 	return lookups, guarded
+}
+
+
+// c19SaveSerialized: in Service.savePipes some mutex M is locked before the snapshot loop (the range over the registry map) and
+// is still held when the persister is called: M's Unlock is deferred, or comes after the persister call. (The registry lock
+// itself is released before the write, so it does not count.)
+func c19SaveSerialized(f *ast.File) bool {
+	fd := funcDecl(f, "Service", "savePipes")
+	if fd == nil {
+		problem("pipe.Service.savePipes not found")
+		return false
+	}
+	selName := func(e ast.Expr) string { // a.b.c -> "a.b.c"
+		var parts []string
+		for {
+			switch x := e.(type) {
+			case *ast.SelectorExpr:
+				parts = append([]string{x.Sel.Name}, parts...)
+				e = x.X
+				continue
+			case *ast.Ident:
+				parts = append([]string{x.Name}, parts...)
+			}
+			break
+		}
+		r := ""
+		for i, p := range parts {
+			if i > 0 {
+				r += "."
+			}
+			r += p
+		}
+		return r
+	}
+	type ev struct {
+		kind string // lock | unlock | defer-unlock | range | persist
+		m    string
+	}
+	var evs []ev
+	callOn := func(c *ast.CallExpr) (string, string) { // receiver text, method
+		if se, ok := c.Fun.(*ast.SelectorExpr); ok {
+			return selName(se.X), se.Sel.Name
+		}
+		return "", ""
+	}
+	for _, st := range fd.Body.List {
+		switch x := st.(type) {
+		case *ast.ExprStmt:
+			if c, ok := x.X.(*ast.CallExpr); ok {
+				recv, m := callOn(c)
+				switch m {
+				case "Lock":
+					evs = append(evs, ev{"lock", recv})
+				case "Unlock":
+					evs = append(evs, ev{"unlock", recv})
+				}
+			}
+		case *ast.DeferStmt:
+			if recv, m := callOn(x.Call); m == "Unlock" {
+				evs = append(evs, ev{"defer-unlock", recv})
+			}
+		case *ast.RangeStmt:
+			if se, ok := x.X.(*ast.SelectorExpr); ok && se.Sel.Name == "ppipes" {
+				evs = append(evs, ev{"range", ""})
+			}
+		}
+		// the persister call, wherever it sits in the statement
+		ast.Inspect(st, func(n ast.Node) bool {
+			if c, ok := n.(*ast.CallExpr); ok {
+				if recv, m := callOn(c); m == "savePipes" && recv != "" && recv != "s" {
+					evs = append(evs, ev{"persist", ""})
+				}
+			}
+			return true
+		})
+	}
+	idx := func(kind, m string) int {
+		for i, e := range evs {
+			if e.kind == kind && (m == "" || e.m == m) {
+				return i
+			}
+		}
+		return -1
+	}
+	ir, ip := idx("range", ""), idx("persist", "")
+	if ir < 0 || ip < 0 {
+		problem("pipe.Service.savePipes: snapshot loop or persister call not recognised")
+		return false
+	}
+	for i, e := range evs {
+		if e.kind != "lock" || i > ir {
+			continue
+		}
+		held := false
+		if d := idx("defer-unlock", e.m); d >= 0 && d < ip {
+			held = true
+		}
+		// an explicit unlock only after the persister call
+		first := -1
+		for j := i + 1; j < len(evs); j++ {
+			if evs[j].kind == "unlock" && evs[j].m == e.m {
+				first = j
+				break
+			}
+		}
+		if first > ip {
+			held = true
+		}
+		if first >= 0 && first < ip {
+			held = false
+		}
+		if held {
+			return true
+		}
+	}
+	return false
 }
